@@ -115,6 +115,8 @@ type rw struct {
 	needVrt   bool
 	needVmap  bool
 	mapSites  map[[2]int]bool // (line, column) of range statements over maps in this file
+	chanSites map[[2]int]bool // … over channels
+	lenSites  map[[2]int]bool // (line, column of the parenthesis) of len/cap calls on channels
 	st        stats
 }
 
@@ -122,6 +124,17 @@ type rw struct {
 // ordered key type. Filled per package by findMapRanges (which needs the whole package to resolve
 // field types), consumed by File.
 var mapRangeSites = map[string]map[[2]int]bool{}
+
+// chanRangeSites / chanLenSites: `for v := range ch` statements and len(ch)/cap(ch) calls on channels.
+var chanRangeSites = map[string]map[[2]int]bool{}
+var chanLenSites = map[string]map[[2]int]bool{}
+
+func mark(sites map[string]map[[2]int]bool, pos token.Position) {
+	if sites[pos.Filename] == nil {
+		sites[pos.Filename] = map[[2]int]bool{}
+	}
+	sites[pos.Filename][[2]int{pos.Line, pos.Column}] = true
+}
 
 type tolerantImporter struct{}
 
@@ -152,12 +165,28 @@ func findMapRanges(paths []string) {
 	conf.Check("p", fset, files, info)
 	for _, f := range files {
 		ast.Inspect(f, func(n ast.Node) bool {
+			if ce, ok := n.(*ast.CallExpr); ok && len(ce.Args) == 1 {
+				// len(ch) / cap(ch)
+				if id, ok := ce.Fun.(*ast.Ident); ok && (id.Name == "len" || id.Name == "cap") {
+					if tv, ok := info.Types[ce.Args[0]]; ok && tv.Type != nil {
+						if _, isChan := tv.Type.Underlying().(*types.Chan); isChan {
+							mark(chanLenSites, fset.Position(ce.Lparen))
+						}
+					}
+				}
+				return true
+			}
 			rs, ok := n.(*ast.RangeStmt)
 			if !ok {
 				return true
 			}
 			tv, ok := info.Types[rs.X]
 			if !ok || tv.Type == nil {
+				return true
+			}
+			if _, isChan := tv.Type.Underlying().(*types.Chan); isChan {
+				pos := fset.Position(rs.For)
+				mark(chanRangeSites, pos)
 				return true
 			}
 			m, ok := tv.Type.Underlying().(*types.Map)
@@ -167,11 +196,7 @@ func findMapRanges(paths []string) {
 			if b, ok := m.Key().Underlying().(*types.Basic); !ok || b.Info()&types.IsOrdered == 0 {
 				return true
 			}
-			pos := fset.Position(rs.For)
-			if mapRangeSites[pos.Filename] == nil {
-				mapRangeSites[pos.Filename] = map[[2]int]bool{}
-			}
-			mapRangeSites[pos.Filename][[2]int{pos.Line, pos.Column}] = true
+			mark(mapRangeSites, fset.Position(rs.For))
 			return true
 		})
 	}
@@ -184,7 +209,7 @@ func File(path string) ([]byte, stats, error) {
 	if err != nil {
 		return nil, stats{}, err
 	}
-	r := &rw{fset: fset, mapSites: mapRangeSites[path]}
+	r := &rw{fset: fset, mapSites: mapRangeSites[path], chanSites: chanRangeSites[path], lenSites: chanLenSites[path]}
 	// 1. imports
 	for _, im := range f.Imports {
 		p, _ := strconv.Unquote(im.Path.Value)
@@ -350,6 +375,12 @@ func (r *rw) expr(e ast.Expr) ast.Expr {
 			if id.Name == "close" && len(x.Args) == 1 {
 				r.needVchan = true
 				return call(sel("vchan", "Close"), r.expr(x.Args[0]))
+			}
+			if (id.Name == "len" || id.Name == "cap") && len(x.Args) == 1 {
+				if p := r.fset.Position(x.Lparen); r.lenSites[[2]int{p.Line, p.Column}] {
+					m := map[string]string{"len": "Len", "cap": "Cap"}[id.Name]
+					return call(&ast.SelectorExpr{X: paren(r.expr(x.Args[0])), Sel: ast.NewIdent(m)})
+				}
 			}
 		}
 		x.Fun = r.expr(x.Fun)
@@ -594,6 +625,20 @@ func (r *rw) rangeStmt(x *ast.RangeStmt, label *ast.LabeledStmt) []ast.Stmt {
 			return label
 		}
 		return s
+	}
+	if r.chanSites[[2]int{pos.Line, pos.Column}] && (x.Tok == token.DEFINE || x.Key == nil) {
+		// for v := range ch { body }  =>  for { v, _ok := ch.Recv2(); if !_ok { break }; body }
+		okv := ast.NewIdent(r.tmp("ok"))
+		var val ast.Expr = ast.NewIdent("_")
+		if x.Key != nil {
+			if id, isID := x.Key.(*ast.Ident); !isID || id.Name != "_" {
+				val = x.Key
+			}
+		}
+		recv := &ast.AssignStmt{Lhs: []ast.Expr{val, okv}, Tok: token.DEFINE, Rhs: []ast.Expr{call(&ast.SelectorExpr{X: paren(x.X), Sel: ast.NewIdent("Recv2")})}}
+		stop := &ast.IfStmt{Cond: &ast.UnaryExpr{Op: token.NOT, X: okv}, Body: &ast.BlockStmt{List: []ast.Stmt{&ast.BranchStmt{Tok: token.BREAK}}}}
+		loop := &ast.ForStmt{Body: &ast.BlockStmt{List: append([]ast.Stmt{recv, stop}, x.Body.List...)}}
+		return []ast.Stmt{wrap(loop)}
 	}
 	if !isMap {
 		return []ast.Stmt{wrap(x)}
